@@ -8,7 +8,7 @@ VERIF = os.path.dirname(os.path.dirname(os.path.abspath(__file__)))
 CHECKS = {
     "C19": ("model_checking", "E3+E1",
             "bounded-exhaustive enumeration of codec/id/split inputs + preemption-bounded exhaustive schedule exploration (controlled scheduler) of the real Peer queue, NewID and the pooled encoder",
-            "Every message/frame/id/split case of the stated product is executed on the real codecs; every schedule of 3 threads x 2 NewID and of 2 senders x 2 messages against 2 flushes of the real cluster.Peer with at most 2 (quick) / 3 (thorough) preemptions is executed and checked for loss, duplication and reordering; a message and a frame encoded by two goroutines at once must both round-trip. Peer flushes that need 1-3 transport calls are run with every subset of calls refused by the transport: every message must still be handed over once, in order.",
+            "Every message/frame/id/split case of the stated product is executed on the real codecs; every schedule of 3 threads x 2 NewID and of 2 senders x 2 messages against 2 flushes of the real cluster.Peer with at most 2 (quick) / 3 (thorough) preemptions is executed and checked for loss, duplication and reordering; a message and a frame encoded by two goroutines at once must both round-trip. Peer flushes that need 1-3 transport calls are run with every subset of calls refused by the transport: every message must still be handed over once, in order. An id's second must lie between clock readings taken around NewID, for 130 ids created after a 2.1 s pause.",
             "Statement-level sequentially-consistent interleavings only; sizes limited to the listed boundary values; transport (mesh unicast) replaced by a recording sender.",
             "DESIGN.md §4 C19"),
 }
@@ -16,7 +16,7 @@ CHECKS = {
 CHECKS.update({
     "C01": ("model_checking", "E2+E1",
             "explicit-state BFS over subscribe/unsubscribe histories on the real Trie (state = canonical trie dump) + preemption-bounded exhaustive schedule exploration with a brute-force linearizability oracle",
-            "Every history of subscribe/unsubscribe to depth 3 (quick) / 4 (thorough) over 12-16 filters x 3 subscribers in both matcher modes is replayed on a fresh real Trie; in every reached state 7 channels are looked up (with and without an exclusion filter) and compared with a string-level matcher incl. share groups; Count() and 'index empty again' are checked. Six scenarios of 2-3 threads (incl. two concurrent lookups that each meet a share group) are explored exhaustively up to 2/3 preemptions; every execution's call/return history must be linearizable w.r.t. the reference.",
+            "Every history of subscribe/unsubscribe to depth 3 (quick) / 4 (thorough) over 12-16 filters x 3 subscribers in both matcher modes is replayed on a fresh real Trie; in every reached state 7 channels are looked up (with and without an exclusion filter) and compared with a string-level matcher incl. share groups; Count() and 'index empty again' are checked. Families of 15-40 byte level names that differ in one byte each (every position) are subscribed by one subscriber per name through the real parser and must be kept apart by lookups. Six scenarios of 2-3 threads (incl. two concurrent lookups that each meet a share group) are explored exhaustively up to 2/3 preemptions; every execution's call/return history must be linearizable w.r.t. the reference.",
             "murmur32 collisions outside the alphabet; sequentially consistent statement-level interleavings; share picks with >1 member only in the sequential part (Go map iteration is not controllable).",
             "DESIGN.md §4 C01"),
     "C02": ("model_checking", "E2",
@@ -109,7 +109,7 @@ CHECKS.update({
             "DESIGN.md §4 C04"),
     "C05": ("model_checking", "E2+E1",
             "explicit-state BFS over client activity x gossip transport schedules on 2-3 real brokers wired through real mesh gossipSender objects (one per directed link), states deduplicated by a canonical dump of every broker's replicated state, peer counters, routing entries and queued payloads; quiescence closure + routing oracle in every state + preemption-bounded exhaustive schedule exploration of two simultaneous first deliveries",
-            "Events: subscribe/unsubscribe/disconnect of a client on any broker (budget 3-4), delivery of one queued payload on one link (gossip bucket first, explorer chooses the broadcast source), periodic full-state gossip, link down/up, peer garbage collection. In every reached state all links are brought up and full-state rounds are run until nothing changes; then every broker must hold a routing entry for a peer iff that peer has a live local subscriber, and a publish on every broker must reach every subscriber exactly once. Configurations: quick = 2 brokers on one channel + 2 brokers with two xor-colliding channels on one side (4 client operations); thorough adds 4 client operations, faults, 3 brokers (mesh and line) and two clients per broker. A scheduled part delivers a new peer's first two subscriptions on two connections at once (yields in the member list, <= 2/3 preemptions), then lets the two clients leave one by one.",
+            "Events: subscribe/unsubscribe/disconnect of a client on any broker (budget 3-4), delivery of one queued payload on one link (gossip bucket first, explorer chooses the broadcast source), periodic full-state gossip, link down/up, peer garbage collection. In every reached state all links are brought up and full-state rounds are run until nothing changes; then every broker must hold a routing entry for a peer iff that peer has a live local subscriber, and a publish on every broker must reach every subscriber exactly once. Configurations: quick = 2 brokers on one channel + 2 brokers with two xor-colliding channels on one side (4 client operations); thorough adds 4 client operations, faults, 3 brokers (mesh and line) and two clients per broker. A scheduled part delivers a new peer's first two subscriptions on two connections at once (yields in the member list, <= 2/3 preemptions), then lets the two clients leave one by one; a second scenario has two publishers hand messages to one real Peer while its flush runs: every message reaches the peer's transport once, in order.",
             "deliveries atomic per broker in the searches; mesh routing transcribed for <= 3 brokers; one logical clock; peer liveness timeouts never elapse.",
             "DESIGN.md §4 C05"),
 })
@@ -117,7 +117,7 @@ CHECKS.update({
 CHECKS.update({
     "C06": ("exploration", "E3",
             "bounded-exhaustive enumeration of store histories x queries against the real in-memory and disk history providers, compared with a list-filter reference",
-            "Every history of <= 3 (quick) / <= 4 (thorough) stored messages over templates with colliding 32-bit key prefixes, several messages per second, expired and live ttls, small and 30 KiB payloads is stored in fresh real InMemory and SSD providers; every derived query (exact/shorter/longer/wildcard filters, other contract, 5 windows, limits 0..10^6, continuation from every returned id) is compared with the reference (same contract, level-wise prefix, window, not expired, newest first within the size cap, order, no id on two pages). Two stores linked through the real OnSurvey hold every distribution of four messages and are queried with every limit (the most recent of all nodes must come back); retained messages must be gone once a 2 s retention period has passed.",
+            "Every history of <= 3 (quick) / <= 4 (thorough) stored messages over templates with colliding 32-bit key prefixes, several messages per second, expired and live ttls, small and 30 KiB payloads is stored in fresh real InMemory and SSD providers; every derived query (exact/shorter/longer/wildcard filters, other contract, 5 windows, limits 0..10^6, continuation from every returned id) is compared with the reference (same contract, level-wise prefix, window, not expired, newest first within the size cap, order, no id on two pages). Two stores linked through the real OnSurvey hold every distribution of four messages and are queried with every limit (the most recent of all nodes must come back); 100 matching messages (local, on the peer, alternating) are queried with limits 63-150; retained messages must be gone once a 2 s retention period has passed.",
             "behaviour at an expiry instant is not explored; the 10^6 limit is sampled sparsely (it preallocates 80 MB per query).",
             "DESIGN.md §4 C06"),
     "C15": ("fault_enumeration", "E4",
